@@ -54,7 +54,8 @@ Definition final_of_robs (o : robs) : option ofinal :=
      are exactly the prescribed ones - except that when a DATA payload is cut by FIN (H3_FRAME_ERROR) some of the payload
      bytes that did arrive may not have been handed out;
    - stream error: only "refused as incomplete" - H3_REQUEST_INCOMPLETE, send half reset with the same code;
-   - reset by the peer / connection lost: that is what happened, after any prefix of the events;
+   - reset by the peer / stream failure of the transport's own kind / connection lost: that is what happened (never a
+     frame error, never a connection error raised by h3), after any prefix of the events;
    - a WebTransport stream header is outside this property. *)
 Definition rrefines_final (evs : list revent) (f : ofinal) (reset : option N) (RO : list revent * rfinal) (en : ending)
   : Prop :=
